@@ -47,10 +47,12 @@ VARIABLES
     rng,       \* number of PRNG draws so far
     result,    \* "running" | "ok" | "err:<kind>"
     out,       \* rendered items of the finished transform
+    gx,        \* id -> x coordinate of the latest registered state of the element
+    px,        \* x coordinate of the previous element ("^")
     passes     \* history: number of retry passes executed (hidden by VIEW)
 
-vars == <<doc, lim, phase, stack, ret, depth, scopes, emap, omap, inSpecs, rng, result, out, passes>>
-view == <<doc, lim, phase, stack, ret, depth, scopes, emap, omap, inSpecs, rng, result, out>>
+vars == <<doc, lim, phase, stack, ret, depth, scopes, emap, omap, inSpecs, rng, result, out, gx, px, passes>>
+view == <<doc, lim, phase, stack, ret, depth, scopes, emap, omap, inSpecs, rng, result, out, gx, px>>
 
 Ids == 1..MaxNodes
 LimitKinds == {"depth", "loop", "var"}
@@ -58,7 +60,11 @@ RetNone == [s |-> "none", items |-> <<>>, kind |-> "-"]
 RetOk(items) == [s |-> "ok", items |-> items, kind |-> "-"]
 RetFail(kind) == [s |-> "fail", items |-> <<>>, kind |-> kind]
 
-Ctx == [doc |-> doc, dl |-> lim.dl, ll |-> lim.ll, vl |-> lim.vl, str |-> StrMode, iv |-> InitVal, rc |-> 1]
+\* InitVal >= 0: the document starts with <var a="InitVal" b="InitVal"/>
+InitNode == [Node(0, "var") EXCEPT !.asg = <<<<"a", Lit(InitVal)>>, <<"b", Lit(InitVal)>>>>]
+FullDoc == IF InitVal >= 0 THEN <<InitNode>> \o doc ELSE doc
+
+Ctx == [doc |-> FullDoc, dl |-> lim.dl, ll |-> lim.ll, vl |-> lim.vl, str |-> StrMode, iv |-> UNDEF, rc |-> 1]
 
 (***************************************************************************)
 (* Build phase: families of documents                                      *)
@@ -84,7 +90,7 @@ Choices ==
          \cup {[Node(0, "loop") EXCEPT !.form = "count", !.cnt = c, !.lv = "a", !.start = 1, !.step = 2] : c \in 1..3}
          \cup {[Node(0, "loop") EXCEPT !.form = "while", !.cond = Lt("b", c)] : c \in {0, 2, 3}}
          \cup {[Node(0, "loop") EXCEPT !.form = "until", !.cond = Ge("b", c)] : c \in {0, 2, 3}}
-         \cup {[Node(0, "leaf") EXCEPT !.rd = r] : r \in {"a", "b"}}
+         \cup {[Node(0, "leaf") EXCEPT !.rd = r, !.ref = p] : r \in {"a", "b"}, p \in {0, -1}}
          \cup {[Node(0, "var") EXCEPT !.asg = <<<<"b", e>>>>] : e \in {Lit(0), Inc("b")}}
          \cup {[Node(0, "if") EXCEPT !.cond = Lt("b", 2)]}
     [] Family = "scope" ->
@@ -114,7 +120,7 @@ Choices ==
     [] OTHER -> {}
 
 RECURSIVE HasRef(_), EscWrites(_), AllNodesOK(_)
-HasRef(nd) == (nd.k = "leaf" /\ nd.ref # 0)
+HasRef(nd) == (nd.k = "leaf" /\ nd.ref > 0)
               \/ (nd.k = "reuse")    \* a reuse may be retried when its target comes later
               \/ \E i \in 1..Len(nd.ch) : HasRef(nd.ch[i])
 EscWrites(nd) == nd.k = "var" \/ (nd.k = "loop" /\ nd.lv # "-")
@@ -129,11 +135,18 @@ DocOK ==
     /\ doc # <<>>
     /\ AllNodesOK(doc)
     /\ \A n \in SeqToSet(Flatten(doc)) :
-          /\ (n.k = "leaf" /\ n.ref # 0 /\ HasId(doc, n.ref)) => NodeById(doc, n.ref).k = "leaf" /\ n.ref # n.id
+          /\ (n.k = "leaf" /\ n.ref > 0 /\ HasId(doc, n.ref)) =>
+                 /\ NodeById(doc, n.ref).k = "leaf" /\ n.ref # n.id
+                 /\ NodeById(doc, n.ref).ref # -1
           /\ (n.k = "reuse" /\ HasId(doc, n.href)) => NodeById(doc, n.href).k \in {"leaf", "g"}
           /\ (n.k = "reuse" /\ HasId(doc, n.href)) => n.href \in RegStatic(doc)
           \* reference targets are always-registered nodes
-          /\ (n.k = "leaf" /\ n.ref # 0 /\ HasId(doc, n.ref)) => n.ref \in RegStatic(doc)
+          /\ (n.k = "leaf" /\ n.ref > 0 /\ HasId(doc, n.ref)) => n.ref \in RegStatic(doc)
+          \* "^" needs an unambiguous previous element: only in documents whose
+          \* rendered elements are all plain shapes, and not as the first one
+          /\ (n.k = "leaf" /\ n.ref = -1) =>
+                 /\ \A m \in SeqToSet(Flatten(doc)) : m.k \notin {"g", "cont", "reuse", "specs"} /\ (m.k = "leaf" => m.ref <= 0)
+                 /\ doc[1].k = "leaf" /\ doc[1].ref = 0
 
 AttachOK(d, nd) ==
     /\ d < MaxDepth
@@ -150,7 +163,7 @@ AddNode ==
     /\ \E d \in AttachDepths(doc), nd \in Choices :
           /\ AttachOK(d, nd)
           /\ doc' = AppendAt(doc, d, [nd EXCEPT !.id = Sz + 1])
-    /\ UNCHANGED <<lim, phase, stack, ret, depth, scopes, emap, omap, inSpecs, rng, result, out, passes>>
+    /\ UNCHANGED <<lim, phase, stack, ret, depth, scopes, emap, omap, inSpecs, rng, result, out, gx, px, passes>>
 
 DoneSet == {i \in Ids : emap[i] = "done"}
 NewPe(kids) == [t |-> "pe", kids |-> kids, todo |-> [i \in 1..Len(kids) |-> i], i |-> 1,
@@ -165,8 +178,8 @@ BuildDone ==
     /\ phase = "build"
     /\ DocOK
     /\ phase' = "run"
-    /\ stack' = <<NewPe(doc)>>
-    /\ UNCHANGED <<doc, lim, ret, depth, scopes, emap, omap, inSpecs, rng, result, out, passes>>
+    /\ stack' = <<NewPe(FullDoc)>>
+    /\ UNCHANGED <<doc, lim, ret, depth, scopes, emap, omap, inSpecs, rng, result, out, gx, px, passes>>
 
 (***************************************************************************)
 (* Run phase                                                               *)
@@ -197,7 +210,7 @@ TagRegister ==
           /\ omap' = IF nd.k \in IdKinds THEN omap \cup {nd.id} ELSE omap
           /\ scopes' = env
           /\ stack' = Append(SetTopFrame(f2), [NewEl(nd, FALSE) EXCEPT !.sh = Len(env)])
-    /\ UNCHANGED <<doc, lim, phase, ret, depth, inSpecs, rng, result, out, passes>>
+    /\ UNCHANGED <<doc, lim, phase, ret, depth, inSpecs, rng, result, out, gx, px, passes>>
 
 \* scopes after a tag has been dealt with (design: later siblings continue
 \* from the environment the pass had reached)
@@ -212,7 +225,7 @@ TagOk ==
                                             !.i = @ + 1])
           /\ scopes' = AfterTag(f, scopes)
     /\ ret' = RetNone
-    /\ UNCHANGED <<doc, lim, phase, depth, emap, omap, inSpecs, rng, result, out, passes>>
+    /\ UNCHANGED <<doc, lim, phase, depth, emap, omap, inSpecs, rng, result, out, gx, px, passes>>
 
 TagFail ==
     /\ Running /\ Top.t = "pe" /\ ret.s = "fail"
@@ -234,7 +247,7 @@ TagFail ==
           ELSE /\ stack' = SetTopFrame([f EXCEPT !.rem = Append(@, pos), !.i = @ + 1])
                /\ ret' = RetNone
                /\ scopes' = restored
-    /\ UNCHANGED <<doc, lim, phase, depth, emap, omap, inSpecs, rng, result, out, passes>>
+    /\ UNCHANGED <<doc, lim, phase, depth, emap, omap, inSpecs, rng, result, out, gx, px, passes>>
 
 RECURSIVE ConcatRes(_, _)
 ConcatRes(res, i) == IF i > Len(res) THEN <<>> ELSE res[i] \o ConcatRes(res, i + 1)
@@ -258,7 +271,7 @@ PassEnd ==
                                                  !.seen = @ \cup DoneSet])
                /\ ret' = RetNone
                /\ passes' = passes + 1
-    /\ UNCHANGED <<doc, lim, phase, depth, scopes, emap, omap, inSpecs, rng, result, out>>
+    /\ UNCHANGED <<doc, lim, phase, depth, scopes, emap, omap, inSpecs, rng, result, out, gx, px>>
 
 \* --- el frame: SvgElement::generate_events -----------------------------------
 
@@ -278,17 +291,17 @@ ElEnter ==
     /\ Running /\ Top.t = "el" /\ Top.ph = "enter"
     /\ IF depth + 1 > lim.dl
        THEN /\ FailWith("depth")
-            /\ UNCHANGED <<doc, lim, phase, emap, omap, rng, result, out, passes>>
+            /\ UNCHANGED <<doc, lim, phase, emap, omap, rng, result, out, gx, px, passes>>
        ELSE /\ depth' = depth + 1
             /\ stack' = SetTopFrame([Top EXCEPT !.ph = "body"])
-            /\ UNCHANGED <<doc, lim, phase, ret, scopes, emap, omap, inSpecs, rng, result, out, passes>>
+            /\ UNCHANGED <<doc, lim, phase, ret, scopes, emap, omap, inSpecs, rng, result, out, gx, px, passes>>
 
 ElExit ==
     /\ Running /\ Top.t = "el" /\ Top.ph = "exit"
     /\ depth' = IF Top.nd.k = "cont" /\ Dev("LeakDepthContainer") THEN depth ELSE depth - 1
     /\ stack' = Below
     /\ ret' = RetOk(Top.acc)
-    /\ UNCHANGED <<doc, lim, phase, scopes, emap, omap, inSpecs, rng, result, out, passes>>
+    /\ UNCHANGED <<doc, lim, phase, scopes, emap, omap, inSpecs, rng, result, out, gx, px, passes>>
 
 Body(k) == Running /\ Top.t = "el" /\ Top.ph = "body" /\ Top.nd.k = k
 Wait(k, s) == Running /\ Top.t = "el" /\ Top.ph = "wait" /\ Top.nd.k = k /\ ret.s = s
@@ -296,7 +309,7 @@ Wait(k, s) == Running /\ Top.t = "el" /\ Top.ph = "wait" /\ Top.nd.k = k /\ ret.
 ChildFail ==
     /\ Running /\ Top.t = "el" /\ Top.ph = "wait" /\ ret.s = "fail"
     /\ FailWith(ret.kind)
-    /\ UNCHANGED <<doc, lim, phase, emap, omap, rng, result, out, passes>>
+    /\ UNCHANGED <<doc, lim, phase, emap, omap, rng, result, out, gx, px, passes>>
 
 \* resolve position of a shape against the element map, render it
 LeafResolve ==
@@ -304,17 +317,24 @@ LeafResolve ==
     /\ LET f == Top
            nd == f.nd
            t == nd.ref
-           st == IF t = 0 \/ t \notin Ids THEN "none" ELSE emap[t]
+           st == IF t <= 0 \/ t \notin Ids THEN "none" ELSE emap[t]
            v == IF nd.rd = "-" THEN nd.val ELSE Lookup(scopes, nd.rd)
-           stale == t # 0 /\ st = "raw" /\ Dev("StaleLookup") /\ NodeById(doc, t).lit
-           ready == t = 0 \/ st = "done" \/ stale
+           \* pinned code: a registered-but-unpositioned target whose size is
+           \* spelled width/height yields a bounding box at the default origin
+           stale == t > 0 /\ st = "raw" /\ Dev("StaleLookup") /\ NodeById(doc, t).lit
+           ready == t <= 0 \/ st = "done" \/ stale
+           x == CASE t = 0 -> 3 * nd.id
+                  [] t = -1 -> px + 3
+                  [] OTHER -> (IF stale THEN 0 ELSE gx[t]) + 3
        IN IF ~ready
           THEN /\ FailWith("ref")
-               /\ UNCHANGED <<emap, rng>>
+               /\ UNCHANGED <<emap, rng, gx, px>>
           ELSE /\ emap' = IF f.inst THEN emap ELSE [emap EXCEPT ![nd.id] = "done"]
+               /\ gx' = IF f.inst THEN gx ELSE [gx EXCEPT ![nd.id] = x]
+               /\ px' = x
                /\ rng' = IF nd.rnd THEN rng + 1 ELSE rng
                /\ stack' = SetTopFrame([f EXCEPT !.ph = "exit",
-                                                 !.acc = <<[id |-> nd.id, v |-> v, stale |-> stale]>>])
+                                                 !.acc = <<[id |-> nd.id, v |-> v, x |-> x, stale |-> stale]>>])
                /\ UNCHANGED <<ret, depth, scopes, inSpecs>>
     /\ UNCHANGED <<doc, lim, phase, omap, result, out, passes>>
 
@@ -322,7 +342,7 @@ GroupPush ==
     /\ Body("g")
     /\ scopes' = Append(scopes, ScopeOf(Top.nd.loc))
     /\ stack' = Append(SetTopFrame([Top EXCEPT !.ph = "wait"]), NewPe(Top.nd.ch))
-    /\ UNCHANGED <<doc, lim, phase, ret, depth, emap, omap, inSpecs, rng, result, out, passes>>
+    /\ UNCHANGED <<doc, lim, phase, ret, depth, emap, omap, inSpecs, rng, result, out, gx, px, passes>>
 
 GroupPop ==
     /\ Wait("g", "ok")
@@ -330,18 +350,18 @@ GroupPop ==
     /\ emap' = IF Top.inst THEN emap ELSE [emap EXCEPT ![Top.nd.id] = "done"]
     /\ stack' = SetTopFrame([Top EXCEPT !.ph = "exit", !.acc = ret.items])
     /\ ret' = RetNone
-    /\ UNCHANGED <<doc, lim, phase, depth, omap, inSpecs, rng, result, out, passes>>
+    /\ UNCHANGED <<doc, lim, phase, depth, omap, inSpecs, rng, result, out, gx, px, passes>>
 
 ContBody ==
     /\ Body("cont")
     /\ stack' = Append(SetTopFrame([Top EXCEPT !.ph = "wait"]), NewPe(Top.nd.ch))
-    /\ UNCHANGED <<doc, lim, phase, ret, depth, scopes, emap, omap, inSpecs, rng, result, out, passes>>
+    /\ UNCHANGED <<doc, lim, phase, ret, depth, scopes, emap, omap, inSpecs, rng, result, out, gx, px, passes>>
 
 ContDone ==
     /\ Wait("cont", "ok")
     /\ stack' = SetTopFrame([Top EXCEPT !.ph = "exit", !.acc = ret.items])
     /\ ret' = RetNone
-    /\ UNCHANGED <<doc, lim, phase, depth, scopes, emap, omap, inSpecs, rng, result, out, passes>>
+    /\ UNCHANGED <<doc, lim, phase, depth, scopes, emap, omap, inSpecs, rng, result, out, gx, px, passes>>
 
 VarAssign ==
     /\ Body("var")
@@ -350,25 +370,25 @@ VarAssign ==
        ELSE /\ scopes' = AssignTop(scopes, Top.nd.asg)
             /\ stack' = SetTopFrame([Top EXCEPT !.ph = "exit"])
             /\ UNCHANGED <<ret, depth, inSpecs>>
-    /\ UNCHANGED <<doc, lim, phase, emap, omap, rng, result, out, passes>>
+    /\ UNCHANGED <<doc, lim, phase, emap, omap, rng, result, out, gx, px, passes>>
 
 IfTest ==
     /\ Body("if")
     /\ IF EvalE(Top.nd.cond, scopes) # 0
        THEN stack' = Append(SetTopFrame([Top EXCEPT !.ph = "wait"]), NewPe(Top.nd.ch))
        ELSE stack' = SetTopFrame([Top EXCEPT !.ph = "exit"])
-    /\ UNCHANGED <<doc, lim, phase, ret, depth, scopes, emap, omap, inSpecs, rng, result, out, passes>>
+    /\ UNCHANGED <<doc, lim, phase, ret, depth, scopes, emap, omap, inSpecs, rng, result, out, gx, px, passes>>
 
 IfDone ==
     /\ Wait("if", "ok")
     /\ stack' = SetTopFrame([Top EXCEPT !.ph = "exit", !.acc = ret.items])
     /\ ret' = RetNone
-    /\ UNCHANGED <<doc, lim, phase, depth, scopes, emap, omap, inSpecs, rng, result, out, passes>>
+    /\ UNCHANGED <<doc, lim, phase, depth, scopes, emap, omap, inSpecs, rng, result, out, gx, px, passes>>
 
 LoopInit ==
     /\ Body("loop")
     /\ stack' = SetTopFrame([Top EXCEPT !.ph = "test", !.it = 0, !.lvv = Top.nd.start])
-    /\ UNCHANGED <<doc, lim, phase, ret, depth, scopes, emap, omap, inSpecs, rng, result, out, passes>>
+    /\ UNCHANGED <<doc, lim, phase, ret, depth, scopes, emap, omap, inSpecs, rng, result, out, gx, px, passes>>
 
 \* loop head: test (count / while), bind the loop variable, run the body
 LoopTest ==
@@ -383,7 +403,7 @@ LoopTest ==
                /\ stack' = Append(SetTopFrame([f EXCEPT !.ph = "wait"]), NewPe(nd.ch))
           ELSE /\ scopes' = scopes
                /\ stack' = SetTopFrame([f EXCEPT !.ph = "exit"])
-    /\ UNCHANGED <<doc, lim, phase, ret, depth, emap, omap, inSpecs, rng, result, out, passes>>
+    /\ UNCHANGED <<doc, lim, phase, ret, depth, emap, omap, inSpecs, rng, result, out, gx, px, passes>>
 
 \* after the body: until-test, count the iteration, check the limit
 LoopAdvance ==
@@ -401,7 +421,7 @@ LoopAdvance ==
                                                  !.lvv = @ + nd.step])
                /\ ret' = RetNone
                /\ UNCHANGED <<depth, scopes, inSpecs>>
-    /\ UNCHANGED <<doc, lim, phase, emap, omap, rng, result, out, passes>>
+    /\ UNCHANGED <<doc, lim, phase, emap, omap, rng, result, out, gx, px, passes>>
 
 \* <reuse>: bind attributes, instantiate the ORIGINAL of the target
 ReusePush ==
@@ -414,14 +434,14 @@ ReusePush ==
                /\ stack' = Append(SetTopFrame([f EXCEPT !.ph = "wait"]),
                                   [NewEl(Instance(NodeById(doc, h), f.nd), TRUE) EXCEPT !.sh = Len(scopes) + 1])
                /\ UNCHANGED <<ret, depth, inSpecs>>
-    /\ UNCHANGED <<doc, lim, phase, emap, omap, rng, result, out, passes>>
+    /\ UNCHANGED <<doc, lim, phase, emap, omap, rng, result, out, gx, px, passes>>
 
 ReusePop ==
     /\ Wait("reuse", "ok")
     /\ scopes' = SubSeq(scopes, 1, Len(scopes) - 1)
     /\ stack' = SetTopFrame([Top EXCEPT !.ph = "exit", !.acc = ret.items])
     /\ ret' = RetNone
-    /\ UNCHANGED <<doc, lim, phase, depth, emap, omap, inSpecs, rng, result, out, passes>>
+    /\ UNCHANGED <<doc, lim, phase, depth, emap, omap, inSpecs, rng, result, out, gx, px, passes>>
 
 SpecsEnter ==
     /\ Body("specs")
@@ -430,21 +450,21 @@ SpecsEnter ==
        ELSE /\ inSpecs' = TRUE
             /\ stack' = Append(SetTopFrame([Top EXCEPT !.ph = "wait"]), NewPe(Top.nd.ch))
             /\ UNCHANGED <<ret, depth, scopes>>
-    /\ UNCHANGED <<doc, lim, phase, emap, omap, rng, result, out, passes>>
+    /\ UNCHANGED <<doc, lim, phase, emap, omap, rng, result, out, gx, px, passes>>
 
 SpecsExit ==
     /\ Wait("specs", "ok")
     /\ inSpecs' = FALSE
     /\ stack' = SetTopFrame([Top EXCEPT !.ph = "exit", !.acc = <<>>])
     /\ ret' = RetNone
-    /\ UNCHANGED <<doc, lim, phase, depth, scopes, emap, omap, rng, result, out, passes>>
+    /\ UNCHANGED <<doc, lim, phase, depth, scopes, emap, omap, rng, result, out, gx, px, passes>>
 
 Finish ==
     /\ phase = "run" /\ stack = <<>> /\ ret.s # "none"
     /\ phase' = "done"
     /\ result' = IF ret.s = "ok" THEN "ok" ELSE ret.kind
     /\ out' = ret.items
-    /\ UNCHANGED <<doc, lim, stack, ret, depth, scopes, emap, omap, inSpecs, rng, passes>>
+    /\ UNCHANGED <<doc, lim, stack, ret, depth, scopes, emap, omap, inSpecs, rng, gx, px, passes>>
 
 RunNext ==
     \/ TagRegister \/ TagOk \/ TagFail \/ PassEnd
@@ -462,10 +482,11 @@ Init ==
     /\ lim \in [dl : DepthLimits, ll : LoopLimits, vl : VarLimits]
     /\ phase = "build"
     /\ stack = <<>> /\ ret = RetNone
-    /\ depth = 0 /\ scopes = <<InitScope(InitVal)>>
+    /\ depth = 0 /\ scopes = <<InitScope(UNDEF)>>
     /\ emap = [i \in Ids |-> "none"] /\ omap = {}
     /\ inSpecs = FALSE /\ rng = 0
     /\ result = "running" /\ out = <<>> /\ passes = 0
+    /\ gx = [i \in Ids |-> 0] /\ px = 0
 
 Spec == Init /\ [][Next]_vars /\ WF_vars(RunNext)
 
@@ -485,8 +506,8 @@ SpecsBalanced == phase = "run" => (inSpecs <=> Frames(IsOpenSpecs) > 0)
 
 CleanAtEnd == phase = "done" => depth = 0 /\ Len(scopes) = 1 /\ ~inSpecs
 
-IdealNow == Ideal(doc, Ctx)
-Proj(items) == [i \in 1..Len(items) |-> [id |-> items[i].id, v |-> items[i].v]]
+IdealNow == Ideal(FullDoc, Ctx)
+Proj(items) == [i \in 1..Len(items) |-> [id |-> items[i].id, v |-> items[i].v, x |-> items[i].x]]
 NoStale(items) == \A i \in 1..Len(items) : ~items[i].stale
 
 \* The observable outcome equals the reference meaning: result class (C17
@@ -495,7 +516,7 @@ NoStale(items) == \A i \in 1..Len(items) : ~items[i].stale
 ResultIsIdeal ==
     phase = "done" =>
         LET I == IdealNow
-        IN /\ result \in {I.res} \cup (IF I.res \in LimitKinds /\ ~RefsOK(I.refs, doc) THEN {"ref"} ELSE {})
+        IN /\ result \in {I.res} \cup (IF I.res \in LimitKinds /\ ~RefsOK(I.refs, FullDoc) THEN {"ref"} ELSE {})
            /\ result = "ok" => Proj(out) = I.items /\ NoStale(out)
 
 \* C14: without references every probe expression is evaluated exactly once
